@@ -241,6 +241,27 @@ Theorem C13_instantiate_flat_struct :
 Proof. exact instantiate_flat_struct. Qed.
 Print Assumptions C13_instantiate_flat_struct.
 
+(* structs that MIX declared-width members (bool, intN, uintN, [n]T) with
+   unsized ones (int, uint, []T), in every order, every size list at least as
+   long (so also sizes below / equal to / above the declared widths): every
+   declared member comes out exactly as declared, every unsized member i takes
+   size i, Bits is the sum *)
+Theorem C13_instantiate_mixed_struct :
+  forall ms szs b0 a0,
+    ms <> [] -> Forall member_ok_mixed ms -> (length ms <= length szs)%nat ->
+    instantiate (Info types_TStruct b0 a0 None (map mtemplate ms) false) szs
+    = Ok (Info types_TStruct (sum_bits (mresize_all ms szs)) a0 None
+               (map info_of (mresize_all ms szs)) true).
+Proof. exact instantiate_mixed_struct. Qed.
+Print Assumptions C13_instantiate_mixed_struct.
+
+(* the frame statement on its own: a concrete type is left exactly as it is
+   by InstantiateWithSizes, whatever size is inferred for its value *)
+Theorem C13_instantiate_declared_frame :
+  forall t sz rest, declared_ok t -> instantiate (info_of t) (sz :: rest) = Ok (info_of t).
+Proof. exact instantiate_declared_frame. Qed.
+Print Assumptions C13_instantiate_declared_frame.
+
 (* … NESTED struct templates: false (known finding): struct{struct{uint,uint},uint}
    with sizes [10,1,3] gives the last member size 1 *)
 Theorem C13_instantiate_nested_refuted :
